@@ -51,6 +51,7 @@ Definition audited_sites : list (string * string * nat * string * site_class) :=
     ("cmd/rbs2json/main.go", "convertArguments", 0, "funcType.RequiredKeywords", SortedAfterwards);
     ("cmd/rbs2json/main.go", "convertArguments", 1, "funcType.OptionalKeywords", SortedAfterwards);
     ("cmd/rbs2json/main.go", "convertDeclarations", 0, "topAliases", CommutativeBody);
+    ("cmd/rbs2json/main.go", "convertType", 0, "aliases", CommutativeBody);     (* copies the map without one key *)
     ("eval/ifunless.go", "getBackupContext", 0, "i.narrowTs", CommutativeBody);
     ("eval/ifunless.go", "narrowing", 0, "i.originalTs", CommutativeBody);
     ("main.go", "cleanSimpleIdentifires", 0, "base.TFrame", CommutativeBody) ].
